@@ -114,3 +114,80 @@ class XAdd(XExpr):
 def unknown_symbol_grammar():
     from geneticengine.grammar.grammar import extract_grammar
     return extract_grammar([XLit, XAdd], XExpr)
+
+
+# ---------------------------------------------------------------------------------------
+# a user refinement that presets ONE field of the node it creates (rec(..., initial_values=...)); further down a
+# production has a field of the same name and another type
+# ---------------------------------------------------------------------------------------
+
+class Shape(ABC):
+    pass
+
+
+@dataclass
+class Dot(Shape):
+    r: Annotated[int, IntRange(1, 3)]
+
+
+@dataclass
+class Stroke(Shape):
+    width: float                      # same NAME as Canvas.width, another TYPE
+    inner: Shape
+
+
+@dataclass
+class Canvas:
+    width: int
+    content: Shape
+
+
+class Preset(MetaHandlerGenerator):
+    def __init__(self, **values):
+        self.values = values
+
+    def validate(self, v) -> bool:
+        return True
+
+    def generate(self, random, grammar, base_type, rec, dependent_values):
+        return rec(base_type, initial_values=dict(self.values))
+
+
+@dataclass
+class Picture:
+    canvas: Annotated[Canvas, Preset(width=80)]
+    extra: Shape
+
+
+def preset_grammar():
+    return extract_grammar([Dot, Stroke, Canvas], Picture)
+
+
+def preset_ill_typed(p) -> list:
+    """fields whose value is not of the declared type (independent walk over the dataclass fields)"""
+    bad = []
+    stack = [("program", p)]
+    while stack:
+        path, v = stack.pop()
+        if isinstance(v, Picture):
+            stack += [(path + ".canvas", v.canvas), (path + ".extra", v.extra)]
+            if not isinstance(v.canvas, Canvas):
+                bad.append(f"{path}.canvas: {v.canvas!r} is not a Canvas")
+            if not isinstance(v.extra, Shape):
+                bad.append(f"{path}.extra: {v.extra!r} is not a Shape")
+        elif isinstance(v, Canvas):
+            if type(v.width) is not int:
+                bad.append(f"{path}.width: {v.width!r} ({type(v.width).__name__}) in a field of type int")
+            if not isinstance(v.content, Shape):
+                bad.append(f"{path}.content: {v.content!r} is not a Shape")
+            stack.append((path + ".content", v.content))
+        elif isinstance(v, Stroke):
+            if type(v.width) is not float:
+                bad.append(f"{path}.width: {v.width!r} ({type(v.width).__name__}) in a field of type float")
+            if not isinstance(v.inner, Shape):
+                bad.append(f"{path}.inner: {v.inner!r} is not a Shape")
+            stack.append((path + ".inner", v.inner))
+        elif isinstance(v, Dot):
+            if type(v.r) is not int or not 1 <= v.r <= 3:
+                bad.append(f"{path}.r: {v.r!r} is not an int in 1..3")
+    return bad
